@@ -346,7 +346,17 @@ def execute(record, ctx):
                 continue
             ctx.count('model_plan_failed_on_real_stack:' + name)
         if 'move_obstacles' in fam['chain']:
-            ctx.undecided['no_plan_stochastic_family'] += 1
+            # obstacles only ever trade places with Floor cells: with no exit at all, or none connected to the agent
+            # over non-blocking cells once the obstacles are taken away, no outcome sequence can win
+            base = M.mutable(w)
+            for (oy, ox) in M.obstacles(base):
+                base['cells'][oy][ox] = ('Floor',)
+            if not goals:
+                ctx.violate('winnable', 'unwinnable_initial_state', 'reset:' + name, 'no_goal', i, f'{params} ({mode}, seed {seed}): the initial state has no exit; agent {w["agent"][:3]}')
+            elif static_path(base, goals, False) is None:
+                ctx.violate('winnable', 'unwinnable_initial_state', 'reset:' + name, 'walled_off', i, f'{params} ({mode}, seed {seed}): no exit is connected to the agent even without the obstacles; agent {w["agent"][:3]}')
+            else:
+                ctx.undecided['no_plan_stochastic_family'] += 1
             continue
         inject_rng(cl.env, ScriptedRng(0, 'first'))
         verdict = real_bfs(cl, w, goals)
